@@ -37,8 +37,12 @@ impl P10 {
         // (i)
         let served = socks.iter().filter(|(_, gi)| gi.map(|g| !sim.gens[g].client_closed).unwrap_or(true)).count();
         ctx.rep.max("max_open_clients_served_at_once", served as u64);
+        ctx.rep.max("max_connections_held_at_once", socks.len() as u64);
         if served > 10 {
             return Some(("more-than-10-served".into(), format!("{} open clients have a server-side connection at once", served)));
+        }
+        if socks.len() > 10 {
+            return Some(("more-than-10-connections-held".into(), format!("the server holds {} connections at once ({} of them to clients that are still open)", socks.len(), served)));
         }
         // sockets whose peer vanished before the server ever polled cannot be attributed; they must not stay
         ctx.rep.add("sockets_of_clients_that_vanished_before_accept", socks.iter().filter(|(_, gi)| gi.is_none()).count() as u64);
@@ -286,7 +290,7 @@ impl HistoryProp for P10 {
 }
 
 /// Scripted-random histories around the capacity boundary.
-fn boundary_history(rng: &mut Rng) -> Vec<Act> {
+pub fn boundary_history(rng: &mut Rng) -> Vec<Act> {
     let mut acts = Vec::new();
     let target = *rng.pick(&[9usize, 10, 10, 11, 11, 12, 13]);
     let cycles = rng.range(1, 3);
